@@ -5,6 +5,7 @@ import (
 	"fmt"
 	"math"
 	"strconv"
+	"strings"
 	"unsafe"
 
 	"github.com/arnodel/golua/lib/base"
@@ -226,6 +227,10 @@ func quote(v rt.Value) (string, bool) {
 	}
 	switch v.Type() {
 	case rt.IntType:
+		if n := v.AsInt(); n == math.MinInt64 {
+			// No decimal numeral denotes this integer
+			return "0x8000000000000000", true
+		}
 		return strconv.Itoa(int(v.AsInt())), true
 	case rt.FloatType:
 		x := v.AsFloat()
@@ -241,12 +246,58 @@ func quote(v rt.Value) (string, bool) {
 		if math.IsNaN(x) {
 			return "(0/0)", true
 		}
-		return strconv.FormatFloat(x, 'g', -1, 64), true
+		s := strconv.FormatFloat(x, 'g', -1, 64)
+		if !strings.ContainsAny(s, ".e") {
+			// Make sure it reads back as a float
+			s += ".0"
+		}
+		return s, true
 	case rt.BoolType:
 		return strconv.FormatBool(v.AsBool()), true
 	case rt.StringType:
-		return strconv.Quote(v.AsString()), true // An approximation
+		return quoteString(v.AsString()), true
 	default:
 		return "", false
 	}
+}
+
+// quoteString returns a Lua string literal denoting s: only escape sequences
+// that the Lua scanner understands are used, and bytes that are not ASCII are
+// left alone.
+func quoteString(s string) string {
+	var b strings.Builder
+	b.Grow(len(s) + 2)
+	b.WriteByte('"')
+	for i := 0; i < len(s); i++ {
+		switch c := s[i]; c {
+		case '"', '\\':
+			b.WriteByte('\\')
+			b.WriteByte(c)
+		case '\a':
+			b.WriteString(`\a`)
+		case '\b':
+			b.WriteString(`\b`)
+		case '\f':
+			b.WriteString(`\f`)
+		case '\n':
+			b.WriteString(`\n`)
+		case '\r':
+			b.WriteString(`\r`)
+		case '\t':
+			b.WriteString(`\t`)
+		case '\v':
+			b.WriteString(`\v`)
+		default:
+			if c < 0x20 || c == 0x7f {
+				const hex = "0123456789abcdef"
+				b.WriteString(`\x`)
+				b.WriteByte(hex[c>>4])
+				b.WriteByte(hex[c&0xf])
+			} else {
+				b.WriteByte(c)
+			}
+		}
+	}
+	b.WriteByte('"')
+	return b.String()
 }
